@@ -8,7 +8,8 @@
    (identifier, payload) pairs. *)
 From Coq Require Import NArith ZArith List Bool Lia Permutation.
 From NGS Require Import Val Ints Morton ShardBytes MiniShard ShardFile ShardReader ShardSpecReader
-  ShardCanon MiniShardProofs ShardFileProofs ShardReaderProofs ShardWitness ShardWitnessProofs.
+  ShardCanon MiniShardProofs ShardFileProofs ShardReaderProofs ShardCloseProofs ShardSpecProofs
+  ShardTopProofs ShardImplProofs ShardWitness ShardWitnessProofs.
 Import ListNotations.
 Open Scope N_scope.
 
@@ -85,20 +86,59 @@ Theorem C05_gap_entries_empty : forall sp enc (sm : store_map) mbv i,
 Proof. exact gap_entries_empty. Qed.
 Print Assumptions C05_gap_entries_empty.
 
-(* (5) never stored => never reported as data, reader half, for EVERY file
-   content: the package reader only returns bytes of an index entry whose
-   cumulative identifier is the requested one, at most size_i of them; so if
-   the only entries carrying that identifier have size 0 the result is empty.
-   FULL statement (not proved: it needs the byte-level parse of the canonical
-   file, see C04):  never_stored : id not in S ->
-     scale_fetch (files (close (run ops))) id  is IOErr, Crash _ or Ok []. *)
-Theorem C05_never_stored_partial : forall sp s ws cmc b,
+(* (4) impl_reads_canonical: after close, the package's own reader on a
+   freshly opened accessor (populate_minishard_dict with its skip of unused
+   slots and recognition by first identifier, the flat index walk, the uint64
+   offset sums) returns exactly the stored bytes of every stored chunk — for
+   every parameter triple (minishard_bits < 59), every set of chunks with
+   distinct identifiers, every store order, encoders with left-inverse decoders
+   (raw / gzip oracle), shard files below 2^63 bytes (signed file offsets). *)
+Theorem C05_impl_reads_canonical : forall sp enc ienc idx_o data_o,
+  cbits sp < 2 ^ 64 ->
+  (forall b, idx_o (ienc b) = Ok b) -> (forall b, data_o (enc b) = Ok b) ->
+  (forall b, b <> [] -> ienc b <> []) -> sp_m sp < 59 ->
+  forall ops id b,
+  ops_valid sp ops -> sizes_ok63 sp enc ienc ops -> In (id, b) ops ->
+  scale_fetch sp idx_o data_o (dir_of (sp_s sp) (session_files sp enc ienc ops)) id = Ok b.
+Proof. exact impl_reads_canonical. Qed.
+Print Assumptions C05_impl_reads_canonical.
+
+(* (5) never_stored, full: whatever the freshly opened reader returns for an
+   identifier that was never stored, it is an exception outcome or the empty
+   byte string — never voxel data.  [Hempty]: decoding the empty string gives
+   the empty string (raw) or fails (zlib.decompress(b"") raises). *)
+Theorem C05_never_stored : forall sp enc ienc idx_o data_o,
+  cbits sp < 2 ^ 64 ->
+  (forall b, idx_o (ienc b) = Ok b) -> (forall b, b <> [] -> ienc b <> []) -> sp_m sp < 59 ->
+  (forall y, data_o [] = Ok y -> y = []) ->
+  forall ops id b,
+  ops_valid sp ops -> sizes_ok63 sp enc ienc ops -> id < 2 ^ 64 ->
+  ~ In id (map fst ops) ->
+  scale_fetch sp idx_o data_o (dir_of (sp_s sp) (session_files sp enc ienc ops)) id = Ok b ->
+  b = [].
+Proof. exact never_stored. Qed.
+Print Assumptions C05_never_stored.
+
+Example C05_reader_hypotheses_inhabited :
+  let sp := {| sp_m := 2; sp_s := 2; sp_p := 0 |} in
+  let ops := [(10, [9; 9; 9]); (8, [2; 2; 2]); (26, []); (40, [7])] in
+  let raw := fun b : bytes => b in
+  let rawo := fun b : bytes => Ok b in
+  cbits sp < 2 ^ 64 /\ sp_m sp < 59 /\ ops_valid sp ops /\ sizes_ok63 sp raw raw ops /\
+  (forall y, rawo [] = Ok y -> y = []) /\ ~ In 24 (map fst ops) /\
+  scale_fetch sp rawo rawo (dir_of 2 (session_files sp raw raw ops)) 10 = Ok [9; 9; 9] /\
+  scale_fetch sp rawo rawo (dir_of 2 (session_files sp raw raw ops)) 24 = Ok [] /\
+  scale_fetch sp rawo rawo (dir_of 2 (session_files sp raw raw ops)) 9 = Crash AssertionError.
+Proof. exact impl_hyps_example. Qed.
+
+(* reader half valid for EVERY file content (also damaged or foreign files) *)
+Theorem C05_never_stored_any_file : forall sp s ws cmc b,
   Nat.modulo (length ws) 3 = 0%nat ->
   (forall i, (i < Nat.div (length ws) 3)%nat -> cum_id ws i = cmc ->
              nth (2 * Nat.div (length ws) 3 + i) ws 0 = 0) ->
   mini_fetch_raw sp s ws cmc = Ok b -> b = [].
 Proof. exact fetch_of_empty_entry. Qed.
-Print Assumptions C05_never_stored_partial.
+Print Assumptions C05_never_stored_any_file.
 
 Theorem C05_fetch_reads_listed_entry : forall sp s ws cmc b,
   Nat.modulo (length ws) 3 = 0%nat ->
@@ -108,13 +148,8 @@ Theorem C05_fetch_reads_listed_entry : forall sp s ws cmc b,
 Proof. exact fetch_reads_listed_entry. Qed.
 Print Assumptions C05_fetch_reads_listed_entry.
 
-(* (4) impl_reads_canonical — instances evaluated in the kernel (whole
-   pipeline: routing, reorder buffers, Shard.close, the package reader):
-   the package reader returns the stored bytes for all 24 chunks of the 3x4x2
-   dataset although two shards use minishards {0,2}, and for the 2x3x2 dataset
-   stored in reverse order.
-   FULL statement (not proved):  impl_reads_canonical : S id = Some b ->
-     scale_fetch (files (close (run ops))) id = Ok b   for every chunk set. *)
+(* instances evaluated in the kernel (whole pipeline incl. routing from chunk
+   origins and the 3x4x2 dataset whose shards use minishards {0,2}) *)
 Theorem C05_impl_reads_instances :
   forallb (fun id => outcome_eqb (scale_fetch wit_sp raw_dec raw_dec (dir_of 2 wit_files) id) (wit_payload id))
           wit_ids = true /\
